@@ -26,7 +26,6 @@ import (
 	"io"
 	"net"
 	"net/http"
-	"net/http/httputil"
 	"net/url"
 	"sync"
 	"syscall"
@@ -960,30 +959,48 @@ func (s *Stream) upgrade(uri *url.URL, stream sonic.Stream, headers []Header) er
 		return err
 	}
 
-	s.handshakeBuffer = s.handshakeBuffer[:cap(s.handshakeBuffer)]
-	n, err := stream.Read(s.handshakeBuffer)
-	if err != nil {
-		return err
+	// Read the response head, i.e. everything up to and including the blank line, however the peer or the network
+	// segmented it. Whatever follows the blank line in the same reads is frame data.
+	var (
+		headSeparator = []byte("\r\n\r\n")
+		headEnd       = -1
+	)
+	s.handshakeBuffer = s.handshakeBuffer[:0]
+	for headEnd < 0 {
+		if len(s.handshakeBuffer) == cap(s.handshakeBuffer) {
+			if cap(s.handshakeBuffer) >= maxHandshakeResponseLength {
+				return ErrCannotUpgrade
+			}
+			s.handshakeBuffer = append(s.handshakeBuffer, make([]byte, 1024)...)[:len(s.handshakeBuffer)]
+		}
+
+		searchFrom := len(s.handshakeBuffer) - len(headSeparator) + 1
+		if searchFrom < 0 {
+			searchFrom = 0
+		}
+
+		n, err := stream.Read(s.handshakeBuffer[len(s.handshakeBuffer):cap(s.handshakeBuffer)])
+		if err != nil {
+			return err
+		}
+		s.handshakeBuffer = s.handshakeBuffer[:len(s.handshakeBuffer)+n]
+
+		if ix := bytes.Index(s.handshakeBuffer[searchFrom:], headSeparator); ix >= 0 {
+			headEnd = searchFrom + ix + len(headSeparator)
+		}
 	}
-	s.handshakeBuffer = s.handshakeBuffer[:n]
-	rd := bytes.NewReader(s.handshakeBuffer)
+
+	rd := bytes.NewReader(s.handshakeBuffer[:headEnd])
 	res, err := http.ReadResponse(bufio.NewReader(rd), req)
 	if err != nil {
 		return err
 	}
 
-	rawRes, err := httputil.DumpResponse(res, true)
-	if err != nil {
-		return err
-	}
-
-	resLen := len(rawRes)
-	extra := len(s.handshakeBuffer) - resLen
-	if extra > 0 {
+	if extra := s.handshakeBuffer[headEnd:]; len(extra) > 0 {
 		// we got some frames as well with the handshake so we can put
 		// them in src for later decoding before clearing the handshake
 		// buffer
-		_, _ = s.src.Write(s.handshakeBuffer[resLen:])
+		_, _ = s.src.Write(extra)
 	}
 	s.handshakeBuffer = s.handshakeBuffer[:0]
 
